@@ -171,7 +171,12 @@ func (p *Program) parseContracts(path string, overlay []byte) error {
 			if len(f) < 3 || !strings.HasPrefix(f[1], "#") {
 				return fail("ghostmap #name <key type>")
 			}
-			p.ghostMaps[f[1]] = strings.Join(f[2:], " ")
+			spec := strings.Join(f[2:], " ")
+			if i := strings.Index(spec, "->"); i >= 0 {
+				p.ghostVals[f[1]] = strings.TrimSpace(spec[i+2:])
+				spec = strings.TrimSpace(spec[:i])
+			}
+			p.ghostMaps[f[1]] = spec
 			cur = nil
 			last = nil
 			continue
